@@ -227,6 +227,11 @@ func (c *fctx) stmts(in []ast.Stmt) []ast.Stmt {
 				&ast.BasicLit{Kind: token.STRING, Value: fmt.Sprintf("%q", c.name)}}}})
 			continue
 		case c.stmtYield:
+			// the size of a reply is added right after the table read that found its call: Model/Transport treats the two
+			// as ONE step (rLookup), so no yield point goes between them (DESIGN §0.7, granularity)
+			if strings.Contains(render(s), ".IncrementSize(") {
+				break
+			}
 			if _, isDecl := s.(*ast.DeclStmt); !isDecl {
 				if _, isDefer := s.(*ast.DeferStmt); !isDefer {
 					out = append(out, pointStmt(fmt.Sprintf("%s#s%d.stmt", c.name, c.m)))
